@@ -1668,6 +1668,243 @@ def run_docs(ctx, case):
 
 
 # ---------------------------------------------------------------------------------------------
+# which document sets a track USES: raw track specification -> TrackSpecificationReader -> on_prepare_track (used_corpora,
+# prepare_docs) -> set_absolute_data_path.  Every document set that some task of the selected challenge reads must be
+# prepared and verified; the expected set is derived from the raw specification, independently of used_corpora.
+# ---------------------------------------------------------------------------------------------
+NON_CORPUS_OPS = [{"operation-type": "search", "index": "_all", "body": {"query": {"match_all": {}}}}, {"operation-type": "force-merge"},
+                  {"operation-type": "refresh"}, {"operation-type": "sleep", "duration": 1}]
+
+
+def gen_usage(ctx):
+    rng = ctx.rng
+    for _ in range(ctx.budget):
+        streams_mode = rng.random() < 0.25
+        targets = ["t%d" % i for i in range(rng.choice([1, 2, 3, 4]))]
+        corpora = []
+        n = 0
+        for c in range(rng.choice([1, 1, 2, 3])):
+            docs = []
+            for _d in range(rng.choice([1, 2, 2, 3])):
+                n += 1
+                docs.append({"id": n, "target": rng.choice(targets), "lines": rng.randrange(1, 30), "archive": rng.choice([None, "bz2", "gz"]),
+                             "declare": rng.random() < 0.7, "present": rng.random() < 0.93})
+            corpora.append({"name": "c%d" % c, "documents": docs})
+
+        def bulk_op():
+            op = {"operation-type": "bulk", "bulk-size": rng.choice([1, 5, 100])}
+            if rng.random() < 0.6:
+                op["data-streams" if streams_mode else "indices"] = rng.sample(targets, rng.randrange(1, len(targets) + 1))
+            if rng.random() < 0.4:
+                names = rng.sample([c["name"] for c in corpora], rng.randrange(1, len(corpora) + 1))
+                op["corpora"] = names[0] if (len(names) == 1 and rng.random() < 0.5) else names
+            return op
+
+        named = {}
+        for i in range(rng.choice([0, 1, 2, 3])):
+            named["op%d" % i] = bulk_op() if rng.random() < 0.6 else dict(rng.choice(NON_CORPUS_OPS))
+        tcount = [0]
+
+        def task():
+            tcount[0] += 1
+            r = rng.random()
+            t = {"name": "task%d" % tcount[0]}
+            if named and r < 0.4:
+                t["operation"] = rng.choice(sorted(named))  # named operation, possibly reused by several tasks
+            else:
+                op = bulk_op() if rng.random() < 0.75 else dict(rng.choice(NON_CORPUS_OPS))
+                if r < 0.6:
+                    op["name"] = "inline%d" % tcount[0] if rng.random() < 0.7 else "shared-inline-name-%s" % op["operation-type"]
+                t["operation"] = op  # inline, named or unnamed (then named after its operation-type)
+            if rng.random() < 0.3:
+                t["clients"] = rng.choice([1, 2])
+            return t
+
+        def schedule():
+            out = []
+            for _k in range(rng.choice([1, 2, 2, 3, 4])):
+                if rng.random() < 0.2:
+                    out.append({"parallel": {"tasks": [task() for _j in range(rng.choice([2, 3]))]}})
+                else:
+                    out.append(task())
+            return out
+
+        challenges = [{"name": "ch0", "schedule": schedule()}]
+        if rng.random() < 0.4:
+            challenges.append({"name": "ch1", "schedule": schedule()})
+        selected = rng.randrange(len(challenges))
+        yield {"streams_mode": streams_mode, "targets": targets, "corpora": corpora, "operations": named, "challenges": challenges, "selected": selected,
+               "two_roots": rng.random() < 0.2}
+
+
+def usage_doc_bytes(ds):
+    return b"".join(b'{"ds":%d,"line":%d}\n' % (ds["id"], i) for i in range(ds["lines"]))
+
+
+def leaf_tasks(schedule):
+    for el in schedule:
+        if "parallel" in el:
+            for t in el["parallel"]["tasks"]:
+                yield t
+        else:
+            yield el
+
+
+def expected_usage(case):
+    """from the RAW specification (docs/track.rst: bulk operation parameters `indices`, `data-streams`, `corpora`):
+    ids of the document sets read by some task of the selected challenge; None when some bulk task matches nothing"""
+    key = "data-streams" if case["streams_mode"] else "indices"
+    all_sets = [(c["name"], d) for c in case["corpora"] for d in c["documents"]]
+    used = set()
+    for t in leaf_tasks(case["challenges"][case["selected"]]["schedule"]):
+        op = t["operation"]
+        if isinstance(op, str):
+            op = case["operations"][op]
+        if op["operation-type"] != "bulk":
+            continue
+        names = op.get("corpora")
+        if isinstance(names, str):
+            names = [names]
+        sel = [d["id"] for cname, d in all_sets if (names is None or cname in names) and (not op.get(key) or d["target"] in op[key])]
+        if not sel:
+            return None
+        used.update(sel)
+    return used
+
+
+def run_usage(ctx, case):
+    import copy
+
+    from esrally import config
+    from esrally.track import loader
+
+    key, tkey = ("data-streams", "target-data-stream") if case["streams_mode"] else ("indices", "target-index")
+    root = tempfile.mkdtemp(prefix="c14-usage-")
+    try:
+        cache = os.path.join(root, "cache")
+        track_dir = os.path.join(root, "usagetrack")
+        os.makedirs(track_dir)
+        with open(os.path.join(track_dir, "track.json"), "w") as f:
+            f.write("{}")
+        content, spec_corpora = {}, []
+        for c in case["corpora"]:
+            cdir = os.path.join(cache, c["name"])
+            os.makedirs(cdir)
+            docs = []
+            for d in c["documents"]:
+                data = usage_doc_bytes(d)
+                fname = "docs-%d.json" % d["id"]
+                content[d["id"]] = (c["name"], fname, data)
+                src = fname + ("." + d["archive"] if d["archive"] else "")
+                blob = _archive(d["archive"], data) if d["archive"] else data
+                if d["present"]:
+                    with open(os.path.join(cdir, src), "wb") as f:
+                        f.write(blob)
+                ds = {"source-file": src, "document-count": d["lines"], tkey: d["target"]}
+                if d["declare"]:
+                    ds["uncompressed-bytes"] = len(data)
+                    if d["archive"]:
+                        ds["compressed-bytes"] = len(blob)
+                docs.append(ds)
+            spec_corpora.append({"name": c["name"], "documents": docs})
+        spec = {"description": "c14 usage", key: [{"name": t} for t in case["targets"]], "corpora": spec_corpora,
+                "operations": [dict(v, name=k) for k, v in sorted(case["operations"].items())],
+                "challenges": [dict(copy.deepcopy(ch), default=(i == 0)) for i, ch in enumerate(case["challenges"])]}
+        sel_name = case["challenges"][case["selected"]]["name"]
+        # model: what used_corpora hands to preparation
+        tid = {t: i for i, t in enumerate(case["targets"])}
+        cid = {c["name"]: i for i, c in enumerate(case["corpora"])}
+        mdocs = [{"id": d["id"], "corpus": cid[c["name"]], "index": None if case["streams_mode"] else tid[d["target"]],
+                  "stream": tid[d["target"]] if case["streams_mode"] else None, "bulk": True} for c in case["corpora"] for d in c["documents"]]
+        mtasks = []
+        for t in leaf_tasks(case["challenges"][case["selected"]]["schedule"]):
+            op = t["operation"] if not isinstance(t["operation"], str) else case["operations"][t["operation"]]
+            names = op.get("corpora")
+            if isinstance(names, str):
+                names = [names]
+            mtasks.append({"has_corpora": op["operation-type"] == "bulk", "corpora": None if names is None else [cid[x] for x in names],
+                           "indices": [] if case["streams_mode"] else [tid[x] for x in op.get("indices", [])],
+                           "streams": [tid[x] for x in op.get("data-streams", [])] if case["streams_mode"] else []})
+        wait_for_driver(ctx)
+        m = ctx.model("corpus", "used_docsets", {"docs": mdocs, "tasks": mtasks})
+        expected = expected_usage(case)
+        cfg = config.Config()
+        cfg.add(config.Scope.application, "benchmarks", "local.dataset.cache", cache)
+        if case["two_roots"]:
+            cfg.add(config.Scope.application, "track", "track.path", track_dir)
+        res, t = None, None
+        with mock.patch.dict(os.environ, {"PATH": path_env("off")}), warnings.catch_warnings():
+            warnings.simplefilter("ignore")
+            try:
+                t = loader.TrackSpecificationReader(selected_challenge=sel_name)("usagetrack", spec, "/mappings")
+                dtp = loader.DefaultTrackPreparator()
+                dtp.cfg, dtp.track = cfg, t
+                dtp.downloader, dtp.decompressor = loader.Downloader(offline=True, test_mode=False), loader.Decompressor()
+                for fn, params in dtp.on_prepare_track(t, cache):
+                    fn(**params)
+                res = "ok"
+                rt = copy.deepcopy(t)
+                loader.set_absolute_data_path(cfg, rt)
+            except Exception as e:  # noqa
+                from esrally import exceptions
+
+                res = classify_exception(e, Paths(root, None))
+                if isinstance(e, exceptions.RallyAssertionError):
+                    res = "RallyAssertionError"
+                elif res.startswith("Unexpected:") and isinstance(e, exceptions.RallyError):
+                    res = "RallyError:" + type(e).__name__  # an explicit error of the track loader / parameter sources
+        prepared = set(i for i, (cname, fname, _d) in content.items() if os.path.exists(os.path.join(cache, cname, fname + ".offset")))
+        if "err" in m:
+            if res == "ok":
+                ctx.diff("used_corpora: a bulk task that matches nothing", m["err"], res)
+        elif res == "ok" and set(m["r"]) != prepared:
+            ctx.diff("document sets handed to preparation", sorted(m["r"]), sorted(prepared))
+        # direct oracle
+        if res == "ok":
+            if expected is None:
+                ctx.count("usage:returned-although-a-bulk-task-matches-nothing")
+            else:
+                resolved = {}
+                for corpus in rt.corpora:
+                    for dset in corpus.documents:
+                        for i, (cname, fname, _d) in content.items():
+                            if cname == corpus.name and dset.document_file is not None and os.path.basename(dset.document_file) == fname:
+                                resolved[i] = dset.document_file
+                bad = []
+                for i in sorted(expected):
+                    cname, fname, data = content[i]
+                    path = resolved.get(i)
+                    if path is None or not os.path.isfile(path):
+                        bad.append([i, "resolved to " + repr(path) + ": no document file"])
+                    elif read_or_none(path) != data:
+                        bad.append([i, "content differs from the published file"])
+                    elif not os.path.isfile(path + ".offset"):
+                        bad.append([i, "no offset table"])
+                    else:
+                        for k in (0, 1, len(data.splitlines())):
+                            with open(path, "rb") as f:
+                                from esrally.utils import io as rio
+
+                                rio.skip_lines(path, f, k)
+                                if f.tell() != linear_positions(data, [k])[k]:
+                                    bad.append([i, "reader positioned at the wrong byte for line %d" % k])
+                if bad:
+                    ctx.fail("document-set-read-by-a-task-was-not-prepared",
+                             "preparation returned normally but a document set that a task of the selected challenge reads is not prepared / verified",
+                             {"document sets read by the tasks of the selected challenge (from the raw specification)": sorted(expected)},
+                             {"not prepared": bad[:5], "prepared": sorted(prepared)})
+        elif not (EXPLICIT.match(res) or res == "RallyAssertionError" or res.startswith("RallyError:")):
+            ctx.fail("non-explicit-error", "track preparation failed with something that is not an explicit error", "explicit error class", res)
+        kinds = sorted(set(("named" if isinstance(t_["operation"], str) else "inline-named" if "name" in t_["operation"] else "inline-unnamed")
+                           for t_ in leaf_tasks(case["challenges"][case["selected"]]["schedule"])))
+        ctx.sig([m.get("tags"), res.split(":")[0], kinds, len(mtasks), len(mdocs), None if expected is None else len(expected), case["streams_mode"]],
+                nontrivial=len(mtasks) > 1)
+        ctx.count("usage:res:" + res.split(":")[0])
+    finally:
+        shutil.rmtree(root, ignore_errors=True)
+
+
+# ---------------------------------------------------------------------------------------------
 # the reader side of the offset table across re-preparations in ONE process: io.skip_lines (plain file and
 # io.MmapSource) must position at the true byte of that line in the CURRENT file, whatever was prepared / read before
 # ---------------------------------------------------------------------------------------------
@@ -2160,6 +2397,7 @@ STREAMS = [
     Stream("prepare_bundled", gen_bundled, run_scenario, quick=240, thorough=4000, shards=8),
     Stream("histories", gen_history, run_history, quick=640, thorough=12000, shards=16),
     Stream("prepare_docs", gen_docs, run_docs, quick=640, thorough=12000, shards=16),
+    Stream("track_usage", gen_usage, run_usage, quick=640, thorough=10000, shards=16),
     Stream("reader_histories", gen_reader, run_reader, quick=48, thorough=600, shards=16),
     Stream("net_download", gen_download, run_download, quick=1200, thorough=30000, shards=8),
     Stream("crash_then_rerun", gen_crash, run_crash, quick=480, thorough=10000, shards=16),
